@@ -1,1 +1,113 @@
-//! transportsim: see /verif/DESIGN.md
+//! transportsim: deterministic simulation deciding C15 — "the encrypted transport delivers the
+//! exact message sequence or disconnects". See /verif/DESIGN.md §5 C15.
+//!
+//! Two or three real `PeerManager`s (plus, in some runs, a raw adversary peer built directly on
+//! `PeerChannelEncryptor`) are connected by simulated byte pipes owned by a seeded scheduler that
+//! fragments, delays, back-pressures, corrupts, replays and cuts the byte streams.
+
+pub mod handlers;
+pub mod net;
+pub mod raw;
+pub mod sched;
+pub mod world;
+
+use serde_json::Value;
+use simcore::{Rng, RunOutcome, Sim, Tier};
+use world::{Action, Config, World};
+
+pub struct TransportSim;
+
+pub const PROFILES: [&str; 3] = ["mix", "rotation", "adversary"];
+
+fn run_world(mut wd: World, rng: Option<Rng>, trace: Option<Vec<Action>>) -> RunOutcome {
+	lightning::util::verif::set_now(std::time::Duration::from_secs(1_700_000_000));
+	match trace {
+		Some(actions) => {
+			for a in actions.iter() {
+				if wd.dead {
+					break;
+				}
+				wd.apply(a);
+			}
+		},
+		None => {
+			let mut sched = rng.expect("rng").fork("schedule");
+			let max = wd.cfg.max_steps;
+			let mut idle = 0;
+			while (wd.trace.len() as u64) < max && !wd.dead && idle < 50 {
+				match sched::next_action(&wd, &mut sched) {
+					Some(a) => {
+						if wd.apply(&a) {
+							idle = 0;
+						} else {
+							idle += 1;
+						}
+					},
+					None => break,
+				}
+			}
+			if !wd.dead {
+				wd.apply(&Action::Settle);
+			}
+		},
+	}
+	wd.finish()
+}
+
+impl Sim for TransportSim {
+	fn name(&self) -> &'static str {
+		"transportsim"
+	}
+
+	fn run(&self, profile: &str, seed: u64, tier: Tier) -> RunOutcome {
+		let mut rng = Rng::new(seed);
+		let cfg = sched::gen_config(profile, &mut rng, seed, tier);
+		let wd = World::new(cfg);
+		run_world(wd, Some(rng), None)
+	}
+
+	fn replay(&self, replay: &Value) -> RunOutcome {
+		let cfg: Config = match serde_json::from_value(replay["config"].clone()) {
+			Ok(c) => c,
+			Err(e) => {
+				let mut o = RunOutcome::default();
+				o.harness_errors.push(format!("bad replay config: {}", e));
+				return o;
+			},
+		};
+		let trace: Vec<Action> = match serde_json::from_value(replay["trace"].clone()) {
+			Ok(t) => t,
+			Err(e) => {
+				let mut o = RunOutcome::default();
+				o.harness_errors.push(format!("bad replay trace: {}", e));
+				return o;
+			},
+		};
+		if cfg.n_nodes == 0 || cfg.features.len() != cfg.n_nodes || cfg.chain.len() != cfg.n_nodes {
+			let mut o = RunOutcome::default();
+			o.harness_errors.push("bad replay config: per-node vectors do not match n_nodes".to_string());
+			return o;
+		}
+		let wd = World::new(cfg);
+		run_world(wd, None, Some(trace))
+	}
+
+	fn components(&self) -> (Vec<String>, Vec<String>) {
+		(
+			vec![
+				"ln::peer_handler::PeerManager (handshake driving, read/write state machines, init exchange, ping/pong, back-pressure)".into(),
+				"ln::peer_channel_encryptor::PeerChannelEncryptor (BOLT-8 noise handshake, ChaCha20-Poly1305 framing, key rotation)".into(),
+				"ln::wire message type dispatch and message (de)serialisation of every message sent".into(),
+				"sign::KeysManager as NodeSigner (node key, ECDH)".into(),
+				"libsecp256k1".into(),
+			],
+			vec![
+				"SocketDescriptor (SimSocket: byte pipes, write credit, frame tracker)".into(),
+				"ChannelMessageHandler / RoutingMessageHandler / OnionMessageHandler / CustomMessageHandler / SendOnlyMessageHandler (recording stubs; messages are queued by the scheduler)".into(),
+				"raw adversary peer (drives PeerChannelEncryptor directly; TestNodeSigner for its key)".into(),
+				"timer (timer_tick_occurred is a scheduler action)".into(),
+				"Logger".into(),
+			],
+		)
+	}
+}
